@@ -17,6 +17,9 @@ var S1 = []string{
 	"[", "]", "{", "}", ":", "=", "<", ">", "!", "&", "|", "%", "+", "~", "?", "^", "_",
 	"0", "9", "e", "E", "n", "N", "q", "Q", "u", "U", "x", "X", "b", "B", "d", "f",
 	"\n", "\x00", "\x7f", "\xa0", "\xe9",
+	// range boundaries of the letter tests and one multi-byte rune whose low byte aliases a quote
+	// (U+0127 -> 0x27): a rune-to-byte truncation makes it look like the delimiter
+	"z", "Z", "\u0127",
 }
 
 // S1core — the 30 most state-changing SQL bytes, for one level deeper.
@@ -53,6 +56,9 @@ var S3core = []string{
 var H1 = []string{
 	"a", "<", ">", "/", "=", "'", "\"", "`", "!", "-", "?", "%", "[", "]", "&", "#", ";", ":", " ",
 	"\x00", "\t", "\n", "o", "n", "x", "X", "s", "1", "C",
+	// 'z' (upper boundary of the letter ranges; case flips give 'Z') and multi-byte runes whose low
+	// byte aliases '=' (U+043D) and '<' (U+013C): a rune-to-byte truncation turns them into markup
+	"z", "\u043d", "\u013c",
 }
 
 // H1core — 20 bytes for one level deeper.
@@ -66,6 +72,7 @@ var H2 = []string{
 	"<![CDATA[", "]]>", "]]", "<!--", "-->", "--!>", "-!>", "<%", "%>", "<?", "<!", "<!doctype", "</", "/>",
 	"<a", "<xss", "<script", "onerror", "href", "style", "xmlns", "attributename", "javascript:", "&#106", "&#x6a;",
 	"[if", "xml", "import", "entity",
+	"\u043d", "\u013c", // runes whose low byte aliases '=' / '<'
 }
 
 // Fixtures returns every --INPUT-- of repo/tests/*.txt plus literal payloads of the Go tests.
